@@ -365,6 +365,25 @@ func TestC13Lookalikes(t *testing.T) {
 			}
 		}
 		if msg == "" {
+			// ... and within one formula: the text as an expression of its own, then the literal, and the other way round
+			if q := obs.Parse([]byte("[(" + text + "), " + lit + "]")); q.OK() && obs.Parse([]byte(text)).OK() {
+				for k, f := range []string{"[(" + text + "), " + lit + "]", "[" + lit + ", (" + text + ")]"} {
+					p2 := obs.Parse([]byte(f))
+					if !p2.OK() {
+						continue
+					}
+					o := obs.Eval(formula.NewRunner(), context.Background(), p2.Src.Expression)
+					var got interface{} = o.Val
+					if arr, ok := o.Val.([]interface{}); ok && len(arr) == 2 {
+						got = arr[1-k]
+					}
+					if o.Err == nil && o.Panic == nil && got != interface{}(text) {
+						msg = fmt.Sprintf("%s: the literal %s evaluates to %s next to the expression %q, want the text %q", strconv.QuoteToASCII(f), strconv.QuoteToASCII(lit), obs.Show(got), text, text)
+					}
+				}
+			}
+		}
+		if msg == "" {
 			out := obs.EvalText("[typeof "+lit+", "+lit+" == "+lit+", "+lit+" + '' == '' + "+lit+"]", nil)
 			if arr, ok := out.Val.([]interface{}); out.Panic != nil || out.Err != nil || !ok || len(arr) != 3 || arr[0] != "string" || arr[1] != true || arr[2] != true {
 				msg = fmt.Sprintf("[typeof x, x == x, x+'' == ''+x] for x = %s yields %s, want ['string', true, true]", strconv.QuoteToASCII(lit), out)
